@@ -34,6 +34,7 @@ fn main() {
         "C06" => (mc, Box::new(|r| checks::c06::run(r))),
         "C07" => (mc, Box::new(|r| checks::codec::run(r, Mode::C07))),
         "C08" => (mc, Box::new(|r| checks::codec::run(r, Mode::C08))),
+        "C16" => (mc, Box::new(|r| checks::c16::run(r))),
         "C20" => (ex, Box::new(|r| checks::c20::run(r))),
         _ => usage(),
     };
